@@ -82,3 +82,22 @@ Definition run_core (t' : tree) (tb : Markers.table) (cells : list cell) (g : rn
        | ErrShape => TErr E_SHAPE
        end.
 End RunNamed.
+
+(* ---------------- wire ---------------- *)
+(* tag 1707: (tree li table query min) with the table keyed by the positions of the STORED tree
+   -> drop_level li (under the guard of _run_mapping), rekey, validate_marker_lookup on the
+   reduced tree: (level-map  patched table (keys = positions of the reduced tree)  log) *)
+Definition run_validate_named (x : sx) : sx :=
+  match x with
+  | L [a; b; c; d; e] =>
+      match sx_tree a, sx_nat b, Markers.sx_table c, sx_LZ d, sx_nat e with
+      | Some t, Some li, Some tb, Some q, Some minm =>
+          match reduce t {| cfg_drop := Some li; cfg_flatten := false |} with
+          | TErr err => sx_err (100 + err)
+          | TOk (t', m) =>
+              Markers.of_mres (fun r => L [of_Lnat m; Markers.of_table (fst r);
+                                           of_list (fun en => L [Markers.of_pkey (fst en); of_list Markers.of_pkey (snd en)]) (snd r)])
+                              (Markers.validate_marker_lookup (rekey m tb) q t' minm)
+          end
+      | _, _, _, _, _ => sx_bad end
+  | _ => sx_bad end.
